@@ -97,6 +97,9 @@ func C12(c *core.Ctx) {
 	c.Count("functions_reachable_from_goroutines", nfun)
 	c.Floor("C-shared/goroutine-roots", len(roots), 20)
 	ncl := checkNoCapturedWrites(c, "C-shared/goroutine-literals-assign-no-captured-variable", p)
+	nsa := checkNoSharedArgumentWrites(c, "C-shared/goroutines-write-no-argument-they-all-share", p)
+	c.Count("shared_goroutine_arguments_checked", nsa)
+	c.Floor("C-shared/goroutines-write-no-argument-they-all-share", nsa, 1)
 	c.Count("goroutine_literals", ncl)
 	c.Floor("C-shared/goroutine-literals", ncl, 10)
 }
